@@ -23,10 +23,20 @@
 (* finds the kind unwatched (another template already watches it: t is     *)
 (* never woken); TimerOptional = FALSE forgets the retry timer of a        *)
 (* missing optional source.                                                *)
+(*                                                                         *)
+(* Environment: the render also takes the environment of the template's    *)
+(* namespace (HyperShift: the hosted cluster of that namespace; t's        *)
+(* namespace hosts none).  The controller keeps the probed environment in  *)
+(* a sink shared by all its templates; a neighbour template in a hosted    *)
+(* cluster's namespace is reconciled by the same controller                *)
+(* (internal/environment/environment.go, Sink.GetEnvironment).  CopyEnv =  *)
+(* TRUE: every pass works on its own deep copy.  CopyEnv = FALSE (a seeded *)
+(* change the trace checks caught): the neighbour's pass writes its hosted *)
+(* cluster into the shared sink and t renders with it until the next probe.*)
 (***************************************************************************)
 EXTENDS Integers, FiniteSets, TLC
 
-CONSTANTS Vals, WatchBeforeRead, TimerOptional, OtherWatcher, MaxEdit, MaxCrash
+CONSTANTS Vals, WatchBeforeRead, TimerOptional, OtherWatcher, CopyEnv, MaxEdit, MaxCrash
 
 VARIABLES src,     \* [A, B] -> value or "-" (absent)
           lab,     \* [A, B] -> the source object carries the dynamic-cache label (only labelled objects produce events:
@@ -37,17 +47,20 @@ VARIABLES src,     \* [A, B] -> value or "-" (absent)
           started, \* kinds with a running informer (somebody watches them)
           queue,   \* t is in the work queue
           timer,   \* a RequeueAfter timer is armed
+          sink,    \* hosted cluster recorded in the controller's environment sink ("none" as probed)
           pc, bud
-vars == <<src, lab, tgt, tmpl, watch, started, queue, timer, pc, bud>>
+vars == <<src, lab, tgt, tmpl, watch, started, queue, timer, sink, pc, bud>>
 
 Idle == [ st |-> "idle" ]
-Render(a, b) == << a, IF b = "-" THEN "unset" ELSE b >>
-NoTgt == << "-", "-" >>          \* the target object does not exist
+Render(a, b, h) == << a, IF b = "-" THEN "unset" ELSE b, h >>
+NoTgt == << "-", "-", "-" >>          \* the target object does not exist
+\* the environment a pass of t gets: t's namespace hosts no cluster
+EnvOfT == IF CopyEnv THEN "none" ELSE sink
 
 Init == /\ src = [ A |-> "-", B |-> "-" ] /\ lab = [ A |-> FALSE, B |-> FALSE ] /\ tgt = NoTgt
         /\ tmpl = [ ex |-> TRUE, invalid |-> FALSE, deleting |-> FALSE ]
         /\ watch = {} /\ started = IF OtherWatcher THEN {"S"} ELSE {}
-        /\ queue = TRUE /\ timer = FALSE /\ pc = Idle
+        /\ queue = TRUE /\ timer = FALSE /\ pc = Idle /\ sink = "none"
         /\ bud = [ edit |-> 0, crash |-> 0 ]
 
 \* an event on an object of kind k reaches t iff t is a registered watcher of k (and the informer runs)
@@ -58,7 +71,7 @@ Begin ==
     /\ pc.st = "idle" /\ queue /\ tmpl.ex
     /\ queue' = FALSE /\ timer' = FALSE
     /\ pc' = IF tmpl.deleting THEN [ st |-> "free" ] ELSE [ st |-> "srcA", a |-> "-", b |-> "-", retry |-> FALSE ]
-    /\ UNCHANGED <<src, lab, tgt, tmpl, watch, started, bud>>
+    /\ UNCHANGED <<src, lab, tgt, tmpl, watch, started, bud, sink>>
 
 \* Watch + read of a source: with WatchBeforeRead the watcher is registered unconditionally; the seeded variant
 \* registers only when the read reports the kind as not started
@@ -69,7 +82,7 @@ ReadSource(name) ==
     \* a source found outside the cache gets the label (a write: an event of a kind t may be watching)
     /\ lab' = IF src[name] # "-" THEN [ lab EXCEPT ![name] = TRUE ] ELSE lab
     /\ queue' = IF src[name] # "-" /\ ~lab[name] /\ "S" \in watch' /\ "S" \in started' THEN TRUE ELSE queue
-    /\ UNCHANGED <<src, tgt, bud>>
+    /\ UNCHANGED <<src, tgt, bud, sink>>
 
 SrcA ==
     /\ pc.st = "srcA" /\ ReadSource("A")
@@ -87,26 +100,27 @@ SrcB ==
 Target ==
     /\ pc.st = "target"
     /\ watch' = watch \cup {"T"} /\ started' = started \cup {"T"}
-    /\ tgt' = Render(pc.a, pc.b)
+    /\ tgt' = Render(pc.a, pc.b, EnvOfT)
     /\ tmpl' = [ tmpl EXCEPT !.invalid = FALSE ]
     /\ timer' = (pc.retry /\ TimerOptional)
     \* the write to the target is an event of a kind t watches, and the status write is t's own change
-    /\ queue' = (tgt # Render(pc.a, pc.b) \/ tmpl.invalid \/ queue)
+    /\ queue' = (tgt # Render(pc.a, pc.b, EnvOfT) \/ tmpl.invalid \/ queue)
     /\ pc' = Idle
-    /\ UNCHANGED <<src, lab, bud>>
+    /\ UNCHANGED <<src, lab, bud, sink>>
 
 \* deletion: free the watches, remove the finalizer
 Free ==
     /\ pc.st = "free"
     /\ watch' = {} /\ started' = (IF OtherWatcher THEN {"S"} ELSE {})
     /\ tmpl' = [ tmpl EXCEPT !.ex = FALSE ] /\ pc' = Idle
-    /\ UNCHANGED <<src, lab, tgt, queue, timer, bud>>
+    /\ UNCHANGED <<src, lab, tgt, queue, timer, bud, sink>>
 
-TimerFires == /\ timer /\ timer' = FALSE /\ queue' = TRUE /\ UNCHANGED <<src, lab, tgt, tmpl, watch, started, pc, bud>>
+TimerFires == /\ timer /\ timer' = FALSE /\ queue' = TRUE /\ UNCHANGED <<src, lab, tgt, tmpl, watch, started, pc, bud, sink>>
 
 Crash == /\ bud.crash < MaxCrash
          \* restart: in-memory state is gone (pass, watches, timers); every object is reconciled once
          /\ pc' = Idle /\ watch' = {} /\ started' = (IF OtherWatcher THEN {"S"} ELSE {}) /\ timer' = FALSE /\ queue' = TRUE
+         /\ sink' = "none"          \* the environment is probed afresh
          /\ bud' = [ bud EXCEPT !.crash = @ + 1 ] /\ UNCHANGED <<src, lab, tgt, tmpl>>
 
 PassNext == Begin \/ SrcA \/ SrcB \/ Target \/ Free \/ TimerFires
@@ -118,17 +132,26 @@ EditSource(name, v) ==
     \* created by a user: no label, invisible to the informer; edits and deletes of a labelled object are seen
     /\ lab' = IF src[name] = "-" \/ v = "-" THEN [ lab EXCEPT ![name] = FALSE ] ELSE lab
     /\ queue' = IF lab[name] THEN Notify("S") ELSE queue
-    /\ bud' = [ bud EXCEPT !.edit = @ + 1 ] /\ UNCHANGED <<tgt, tmpl, watch, started, timer, pc>>
+    /\ bud' = [ bud EXCEPT !.edit = @ + 1 ] /\ UNCHANGED <<tgt, tmpl, watch, started, timer, pc, sink>>
 TamperTarget ==
     /\ bud.edit < MaxEdit /\ tgt # NoTgt
     /\ tgt' = NoTgt /\ queue' = Notify("T")
-    /\ bud' = [ bud EXCEPT !.edit = @ + 1 ] /\ UNCHANGED <<src, lab, tmpl, watch, started, timer, pc>>
+    /\ bud' = [ bud EXCEPT !.edit = @ + 1 ] /\ UNCHANGED <<src, lab, tmpl, watch, started, timer, pc, sink>>
 DeleteTemplate ==
     /\ bud.edit < MaxEdit /\ tmpl.ex /\ ~tmpl.deleting
     /\ tmpl' = [ tmpl EXCEPT !.deleting = TRUE ] /\ queue' = TRUE
-    /\ bud' = [ bud EXCEPT !.edit = @ + 1 ] /\ UNCHANGED <<src, lab, tgt, watch, started, timer, pc>>
+    /\ bud' = [ bud EXCEPT !.edit = @ + 1 ] /\ UNCHANGED <<src, lab, tgt, watch, started, timer, pc, sink>>
+\* the neighbour template in the hosted cluster's namespace is reconciled (same controller, same sink): with its own
+\* copy of the environment nothing is left behind; without, the sink keeps the neighbour's hosted cluster
+NeighbourPass ==
+    /\ bud.edit < MaxEdit
+    /\ sink' = IF CopyEnv THEN sink ELSE "one"
+    /\ bud' = [ bud EXCEPT !.edit = @ + 1 ] /\ UNCHANGED <<src, lab, tgt, tmpl, watch, started, queue, timer, pc>>
+\* the environment manager's periodic probe replaces the sink's content (no reconcile is triggered by it)
+ProbeEnv == /\ sink # "none" /\ sink' = "none" /\ UNCHANGED <<src, lab, tgt, tmpl, watch, started, queue, timer, pc, bud>>
 
 EnvNext == (\E n \in {"A", "B"}, v \in Vals \cup {"-"} : EditSource(n, v)) \/ TamperTarget \/ DeleteTemplate \/ Crash
+           \/ NeighbourPass \/ ProbeEnv
 Next == PassNext \/ EnvNext
 Spec == Init /\ [][Next]_vars
 FairSpec == Spec /\ WF_vars(PassNext)
@@ -139,13 +162,13 @@ AtRest == pc.st = "idle" /\ ~queue /\ ~timer /\ tmpl.ex /\ ~tmpl.deleting
 
 \* C18: at rest the target is the render of the current sources (a missing required source: Invalid instead)
 Inv_C18_OutputIsRender ==
-    AtRest => IF src.A = "-" THEN tmpl.invalid ELSE (tgt = Render(src.A, src.B) /\ ~tmpl.invalid)
+    AtRest => IF src.A = "-" THEN tmpl.invalid ELSE (tgt = Render(src.A, src.B, "none") /\ ~tmpl.invalid)
 \* C18: a deleted template holds no watch
 Inv_C18_Freed == ~tmpl.ex => watch = {}
 \* liveness: once edits stop the system gets to rest (timers of a missing source keep it from resting, by design)
 Quiet == bud.edit = MaxEdit /\ bud.crash = MaxCrash
 Live_C18_Tracks ==
-    <>[]((Quiet /\ tmpl.ex /\ ~tmpl.deleting /\ src.A # "-") => (pc.st = "idle" => tgt = Render(src.A, src.B)) \/ queue \/ timer)
+    <>[]((Quiet /\ tmpl.ex /\ ~tmpl.deleting /\ src.A # "-") => (pc.st = "idle" => tgt = Render(src.A, src.B, "none")) \/ queue \/ timer)
 Live_C18_EventuallyCurrent ==
-    [](Quiet /\ tmpl.ex /\ ~tmpl.deleting /\ src.A # "-" /\ src.B # "-" => <>(tgt = Render(src.A, src.B)))
+    [](Quiet /\ tmpl.ex /\ ~tmpl.deleting /\ src.A # "-" /\ src.B # "-" => <>(tgt = Render(src.A, src.B, "none")))
 =============================================================================
